@@ -97,6 +97,12 @@ def weird_list_op(rg, w, c):
 
 
 def gen_step(w, rg):
+    rem = [h for h in G.attached_handles(w, allow_removed=True) if h.oid == 0 and h.state == "removed" and getattr(h, "detached", None) is not None]
+    if rem and rg.random() < 0.15:
+        # a value that was removed from the collection (pop/popitem/del) and is still held: it behaves like the plain
+        # detached dict/list it now is
+        w.probe("removed_value_op")
+        return G.gen_op_step(rg, w, G.pick(rg, rem), depth=2, mut_weight=0.4, keep_p=0.0)
     allh = G.attached_handles(w)
     hs = [h for h in allh if h.oid == 0]
     if not hs:
